@@ -520,8 +520,8 @@ def _d4(ck, facts):
         if just is None and key in ('graph::GraphLike::append_graph', 'graph::GraphLike::subgraph_from_vertices', 'graph::GraphLike::copy'):
             # injective copy of the edges of a simple graph through a vertex map
             just = 'injective-copy' if _is_injective_copy(facts['fns'][key], c) else None
-        ck.ob('R-EDGE', sid, just is not None, ck.site(key, c), 'raw edge insertion `%s`: %s (use add_edge_smart, or insert only to fresh vertices)' % (hir.pp(c)[:60], detail),
-              sample={'call': hir.pp(c)[:60], 'justified_by': just})
+        ck.ob3('R-EDGE', sid, redge.verdict(just, detail), ck.site(key, c), 'raw edge insertion `%s`: %s (use add_edge_smart, or insert only to fresh vertices)' % (hir.pp(c)[:60], detail.replace('UNRECOGNISED: ', '')),
+               sample={'call': hir.pp(c)[:60], 'justified_by': just})
     ck.floor('R-EDGE', len(rs), 8)
 
 
